@@ -53,21 +53,35 @@ def chooseLog (rv : List UInt32) (n : Nat) : Nat :=
     | k + 1 => if min ((cuts rv (k + 1)).length) 63 < 32 then go k else k + 1
   go (min 30 (initialLog n))
 
-/-- the CTPH digest; `s2` is the capacity of block hash 2 of the output type -/
-def digest (bs : List UInt8) (trunc : Bool) (s2 : Nat) : Except GenErr Digest :=
-  let n := bs.length
-  if n > Gen.MAX_INPUT_SIZE then .error .inputSizeTooLarge else
+/-- everything that does not depend on the output variant -/
+structure Analysis where
+  arr : Array UInt8
+  rv : List UInt32
+  finalNonZero : Bool
+  k : Nat
+  bh1 : List UInt8
+
+def analyze (bs : List UInt8) : Analysis :=
   let arr := bs.toArray
   let rv := rollVals bs
   let finalNonZero := (rv.getLast?.getD 0) != 0
-  let k := chooseLog rv n
+  let k := chooseLog rv bs.length
   let (d1, t1) := levelDigest arr (cuts rv k) 64
-  let bh1 := withTail d1 t1 64 finalNonZero
+  { arr := arr, rv := rv, finalNonZero := finalNonZero, k := k, bh1 := withTail d1 t1 64 finalNonZero }
+
+def digestOf (a : Analysis) (trunc : Bool) (s2 : Nat) : Except GenErr Digest :=
+  let n := a.arr.size
+  if n > Gen.MAX_INPUT_SIZE then .error .inputSizeTooLarge else
   let cap2 := if trunc then 32 else 64
   -- level 31 never ends a piece in 32-bit arithmetic: its digest is the hash of the whole input
-  let (d2, t2) := if k + 1 ≤ 30 then levelDigest arr (cuts rv (k + 1)) cap2 else ([], pieceHash arr 0 n)
-  let bh2 := withTail d2 t2 cap2 finalNonZero
+  let (d2, t2) := if a.k + 1 ≤ 30 then levelDigest a.arr (cuts a.rv (a.k + 1)) cap2
+                  else ([], pieceHash a.arr 0 n)
+  let bh2 := withTail d2 t2 cap2 a.finalNonZero
   if !trunc && s2 = 32 && bh2.length > 32 then .error .outputOverflow
-  else .ok ⟨k, bh1, bh2⟩
+  else .ok ⟨a.k, a.bh1, bh2⟩
+
+/-- the CTPH digest; `s2` is the capacity of block hash 2 of the output type -/
+def digest (bs : List UInt8) (trunc : Bool) (s2 : Nat) : Except GenErr Digest :=
+  digestOf (analyze bs) trunc s2
 
 end Ffuzzy.Spec
